@@ -79,7 +79,7 @@ def gen_cases(ctx):
     return cases
 
 
-def product_stage(ctx):
+def product_stage(ctx, present=0):
     """DIRECT TEST ON THE IMPLEMENTATION (Props/C17.v C17_product is the model-side statement): for pairs a, b of Dual2 on
     every pair of stored layouts of the 3-letter alphabet and a requested list, row i of the product rule applied to the
     manifolds, gradient1(M(a)_i * b + a * M(b)_i), equals row i of gradient2(a * b) - the manifold numbers carry the
@@ -95,10 +95,10 @@ def product_stage(ctx):
                 ws = rng.choice(req)
                 cases.append((c03.mk(rng, 2, la), c03.mk(rng, 2, lb), ws))
     enc = [[26] + dg.enc_number(a)[1:] + dg.enc_number(b)[1:] + dg.enc_names(ws) for a, b, ws in cases]
-    impl = run_harness("dual", ["c " + " ".join(str(x) for x in e) for e in enc])
+    impl = run_harness("dual", ["c " + " ".join(str(x) for x in e) for e in enc], present=present)
     for (a, b, ws), e, o in zip(cases, enc, impl):
         ctx.evaluations += 1
-        ctx.count("product rule on manifolds (direct test)")
+        ctx.count("product rule on manifolds (direct test)" + (", operands built through try_new_from" if present else ""))
         ctx.nontriv(("prod", tuple(e)))
         what = None
         n = len(ws)
@@ -116,7 +116,7 @@ def product_stage(ctx):
         if what:
             ctx.violation("the product rule applied to manifolds does not reproduce the second derivatives of a product: a = %s, "
                           "b = %s, names %s: %s" % (a, b, ws, what),
-                          {"case": e, "entry": "product rule", "direct_test": True, "a": list(a), "b": list(b), "requested": ws,
+                          {"case": e, "entry": "product rule", "direct_test": True, "a": list(a), "b": list(b), "requested": ws, "present": present,
                            "implementation": o[:80],
                            "harness_cmd": "echo 'c %s' | harness/target/release/rlharness dual" % " ".join(str(t) for t in e)})
 
@@ -159,7 +159,22 @@ def run(ctx):
                  "absent_names": sorted(set(absent)), "has_absent_name": bool(absent),
                  "implementation": dg.plain(da), "model": dg.plain(db),
                  "harness_cmd": "echo 'c %s' | harness/target/release/rlharness dual" % " ".join(str(t) for t in e)})
+    # the same read-backs from a number built through the SIBLING constructor (T::try_new_from on a rotated copy of its names -
+    # the function behind the Python `vars_from`; harness RL_PRESENT=1): by name it is the same number
+    impl2 = run_harness("dual", ["c " + " ".join(str(x) for x in c) for c in encd], present=1)
+    for c, e, a, b in zip(cases, encd, impl2, model):
+        kind, which, x, ws = c
+        ctx.evaluations += 1
+        ctx.count("stored number built through try_new_from")
+        ok, da, db = dg.agree(a, b, schema_for(kind, which), rtol=1e-12)
+        if not ok:
+            ctx.violation("with the number built through try_new_from (names rotated) the implementation disagrees with the proved "
+                          "model on %s: implementation %s, model %s" % (describe(*c), str(dg.plain(da))[:400], str(dg.plain(db))[:400]),
+                          {"case": e, "entry": WHICH[which], "kind": kind, "stored": list(x), "requested": ws, "present": 1,
+                           "implementation": dg.plain(da), "model": dg.plain(db),
+                           "harness_cmd": "echo 'c %s' | RL_PRESENT=1 harness/target/release/rlharness dual" % " ".join(str(t) for t in e)})
     product_stage(ctx)
+    product_stage(ctx, present=1)
     for c in cases[200:204]:
         ctx.sample(describe(*c))
     ctx.exhaustive = True
@@ -170,7 +185,7 @@ def replay(ctx, rp):
     build_harness()
     build_coq(["theories/Run/RunDual.vo"])
     c = rp["case"]
-    a = run_harness("dual", ["c " + " ".join(str(x) for x in c)])[0]
+    a = run_harness("dual", ["c " + " ".join(str(x) for x in c)], present=rp.get("present", 0))[0]
     if rp.get("entry") == "product rule":
         n = a[1] if len(a) > 1 else 0
         L, R = a[2:2 + n * n], a[4 + n * n:]
